@@ -1,19 +1,85 @@
 """Registry: which machinery decides which property (units, Kani harnesses, scans), and what is assumed."""
 
 CRYPTO_AXIOMS = [
-    "prelude axioms: Scalar is a field, G1/G2/Gt prime-order groups, pairing bilinear and non-degenerate (audited against bls12_381 by tools/axiom-audit in the thorough tier)",
+    "prelude axioms: Scalar is a field, G1/G2/Gt prime-order groups, pairing bilinear and non-degenerate (assumed contracts of bls12_381; audited natively by tools/axiom-audit in the thorough tier)",
     "G1Affine/G1Projective (and G2) identified: conversions are the identity on the abstract element",
     "Verus 0.2026.09.13 + Z3; rustc 1.98.1",
     "extraction edits D0-D10 of tools/vx-extract (logged per function in extraction_edits)",
+    "monomorphisation: results hold per instantiation (N, G) listed in functions_under_contract",
 ]
 
+PER_INST = "results are per instantiation of the monomorphised functions, N in {1,2,3,5,8,13}; the quick tier runs two instantiations per unit, the thorough tier all"
+
 PROPS = {
+    "C07": {
+        "level": "proof",
+        "units": ["ps", "keys", "pedersen"],
+        "assumptions": [
+            PER_INST,
+            "key well-formedness (ps_key_ok) is established by KeyPair::new (C19) or by decode-time validation (C15)",
+            "SecretKey::new and the closure-capturing array builders are contract-only in Verus (bounded Kani stand-in, see C19)",
+            "re-randomiser r != 0 and blind-signing randomiser u != 0 (probability 2^-255 otherwise; the contracts state exactly what is produced when they are 0)",
+        ],
+        "trusted_base": CRYPTO_AXIOMS,
+    },
+    "C08": {
+        "level": "proof",
+        "units": ["sproof", "ps", "keys"],
+        "scans": ["verified_blinded_message_sites"],
+        "assumptions": [PER_INST, "PS unforgeability and discrete-log binding are cryptographic hypotheses, not decided here"],
+        "trusted_base": CRYPTO_AXIOMS,
+    },
     "C09": {
         "level": "proof",
-        "units": ["pedersen"],
+        "units": ["pedersen", "keys"],
         "assumptions": [
             "perturbation clauses hold for parameters without identity generators (invariant of generated/decoded PedersenParameters; from_generators accepts any input)",
-            "results are per instantiation (G, N) of the monomorphised functions, N in {1,2,3,5,8,13}; quick tier runs two instantiations",
+            PER_INST,
+        ],
+        "trusted_base": CRYPTO_AXIOMS,
+    },
+    "C10": {
+        "level": "proof",
+        "units": ["cproof", "sproof", "range", "transcripts"],
+        "assumptions": [
+            PER_INST,
+            "CommitmentProofBuilder::generate_proof_commitments, RangeConstraintBuilder::generate_constraint_commitments/_response are contract-only in Verus (closures capture &mut rng / ArrayVec::into_iter); their contracts are assumptions of the completeness lemmas and are checked by Kani in bounded form",
+        ],
+        "trusted_base": CRYPTO_AXIOMS,
+    },
+    "C11": {
+        "level": "proof",
+        "units": ["cproof", "sproof"],
+        "assumptions": [PER_INST, "challenge != 0 for the commitment-perturbation clause"],
+        "trusted_base": CRYPTO_AXIOMS,
+    },
+    "C12": {
+        "level": "proof",
+        "units": ["challenge", "transcripts"],
+        "assumptions": [
+            PER_INST,
+            "SHA3-256 collision resistance (to go from 'transcript changes' to 'challenge changes'); fixed-width encodings to_bytes of scalars and points are injective (documented contract of bls12_381)",
+            "ChallengeBuilder::finish is contract-only: the challenge is a function of the accumulated transcript alone",
+        ],
+        "trusted_base": CRYPTO_AXIOMS,
+    },
+    "C13": {
+        "level": "proof",
+        "units": ["range", "sproof"],
+        "assumptions": [
+            PER_INST,
+            "PS unforgeability for digits outside 0..127 (the signing key of the digit signatures is discarded)",
+            "RangeConstraintParameters::new/validate and generate_constraint_commitments are contract-only in Verus (closure captures rng / enumerate); Kani harness decides the digit decomposition for all i64",
+        ],
+        "trusted_base": CRYPTO_AXIOMS,
+    },
+    "C19": {
+        "level": "proof",
+        "units": ["keys", "sampling"],
+        "assumptions": [
+            PER_INST,
+            "termination of rejection-sampling loops is not proved (an all-zero RNG never terminates)",
+            "SecretKey::new, PedersenParameters::new, RangeConstraintParameters::new fill arrays with a closure capturing &mut rng: contract-only in Verus; bounded Kani stand-in",
         ],
         "trusted_base": CRYPTO_AXIOMS,
     },
